@@ -34,7 +34,9 @@ ASSUMPTIONS = [
     "environment dump for the 'unchanged' invariant = every node's name, type, value, unit, raw unit, dimension, "
     "options, condition, format, tags, constant and declared flags + the custom-unit table; sources are not part of "
     "the statement (DIP(env) registers its own source entries in the given environment by design)",
-    "not judged: injection across data types, of empty values, into a unit-less host from a dimensional source "
+    "not judged: injection across data types, from declared-only nodes, slices/arrays of none, constraints on a none "
+    "value, import of a none node, typed re-definition by a sliced injection (observed: slice ignored), slices over "
+    "two axes on re-used hosts, into a unit-less host from a dimensional source "
     "modification, imports whose names collide with existing nodes, out-of-range indices, values 0 / '' / none (C14), "
     "modification of int/float/str arrays (C14 defect family, tagged array-modification where unavoidable)",
 ]
@@ -888,9 +890,12 @@ MANIFEST = dict(
          "modifications x injection in definitions and modifications (host unit none / same / convertible / other "
          "dimension; host at root, in a group, dotted; every index/range slice form incl. index 2, 2-D and string "
          "slices) x imports (children, single, deep, all; root / group / named / dotted) x later modification of "
-         "source, host or imported node, locally and through a remote file ($source and add_source); requests "
+         "source, host or imported node; hosts defined by a single-axis sliced injection that are afterwards "
+         "imported / modified / injected / sliced again; referenced nodes emptied by `= none` (or defined as none, or "
+         "refilled) before the injection, for every host type; all locally and through a remote file ($source and "
+         "add_source); requests "
          "selecting none/several.  Plus explicit-state exploration of all DIP(env) chaining histories up to depth 3 "
-         "(quick) / 4 (thorough) over 12 programs (incl. 3 failing ones): every earlier environment stays unchanged "
+         "(quick) / 4 (thorough) over 13 programs (incl. 3 failing ones): every earlier environment stays unchanged "
          "and every result equals the reference.",
     note="Trusted: reference interpreter of the generator AST (exact rationals, own SI factors); dump of an "
          "environment = nodes with all constraint fields + custom units (sources excluded by the statement).",
